@@ -29,7 +29,7 @@ Req_CliKsfs == {0}
 Req_MutPlan == << <<"blinded", "valid">>, <<"blinded", "invalid">>, <<"cnonce", "valid">>,
                   <<"cepk", "valid">>, <<"cepk", "invalid">> >>
 
-StartedCl == {c \in CliIds : cl[c].st # "none"}
+StartedCl == {c \in CliIds : HasReq(c)}
 MixedReq == {[blinded |-> cl[p[1]].req.blinded, cnonce |-> cl[p[2]].req.cnonce, cepk |-> cl[p[3]].req.cepk] :
                 p \in StartedCl \X StartedCl \X StartedCl}
 TamperReq(r, g) ==
